@@ -332,6 +332,11 @@ ASMJIT_FAVOR_SIZE Error EmitHelper::emit_prolog(const FuncFrame& frame) {
     uint32_t pair_count = data.pair_count;
 
     Reg regs[2] = { group_regs[group], group_regs[group] };
+    if (group == RegGroup::kVec && frame.save_restore_reg_size(group) == 16u) {
+      // The calling convention preserves whole 128-bit registers.
+      regs[0] = q0;
+      regs[1] = q0;
+    }
     Mem mem = ptr(sp);
 
     const LoadStoreInstructions& insts = group_insts[group];
@@ -415,6 +420,11 @@ ASMJIT_FAVOR_SIZE Error EmitHelper::emit_epilog(const FuncFrame& frame) {
     uint32_t pair_count = data.pair_count;
 
     Reg regs[2] = { group_regs[group], group_regs[group] };
+    if (group == RegGroup::kVec && frame.save_restore_reg_size(group) == 16u) {
+      // The calling convention preserves whole 128-bit registers.
+      regs[0] = q0;
+      regs[1] = q0;
+    }
     Mem mem = ptr(sp);
 
     const LoadStoreInstructions& insts = group_insts[group];
